@@ -301,6 +301,96 @@ def run_files(arg):
 
 FORMATS = ["kida", "umist", "leeds", "uclchem", "naunet", "krome"]
 
+# ---- KROME: the column layout is data (the @format directive), so it is enumerated too ---------
+KROME_FORMATS = [
+    "idx,R,R,R,P,P,P,P,Tmin,Tmax,rate",
+    "idx,R,R,P,P,rate",
+    "idx,R,P,rate",
+    "R,R,P,P,P,Tmin,Tmax,rate",
+    "idx,R,R,P,P,P,P,P,Tmin,Tmax,rate",
+    "idx,Tmin,Tmax,R,R,R,P,P,P,rate",
+    "IDX,R,R,P,P,P,TMIN,TMAX,RATE",
+    "idx,r,r,p,p,p,tmin,tmax,rate",
+]
+KROME_LIMITS = [("NONE", -1.0), ("N", -1.0), ("10", 10.0), (">10", 10.0), (".GE.10", 10.0), ("1d1", 10.0), ("1.5d2", 150.0), ("<1d4", 1e4), (".LT.1d4", 1e4), ("2.5e3", 2500.0)]
+KROME_NAMES = ["H", "HCO+", "H-", "E", "C2H5OH", "He+", "H2"]
+
+
+def krome_format_cases(tier):
+    out = []
+    n = 0
+    for fmt in KROME_FORMATS:
+        keys = fmt.lower().split(",")
+        nr, np_ = keys.count("r"), keys.count("p")
+        for r in range(1, nr + 1):
+            for pn in range(0, np_ + 1):
+                lims = KROME_LIMITS if (r, pn) == (min(2, nr), min(2, np_)) or tier != "quick" else [KROME_LIMITS[n % len(KROME_LIMITS)]]
+                for lo_txt, lo in lims:
+                    hi_txt, hi = KROME_LIMITS[(n + 3) % len(KROME_LIMITS)]
+                    reac = [KROME_NAMES[(n + i) % len(KROME_NAMES)] for i in range(r)]
+                    prod = [KROME_NAMES[(n + 2 + 2 * i) % len(KROME_NAMES)] for i in range(pn)]
+                    idx = 1 + (n * 37) % 9973
+                    ar = F.AReaction(reac, prod, 1e-10, 0.0, 0.0, lo, hi, idx, None, None)
+                    line = F.enc_krome(ar, fmt=fmt, tmin_txt=lo_txt, tmax_txt=hi_txt, rate=f"{1 + n % 7}.5d-{10 + n % 5}")
+                    exp = {"reactants": sorted(reac), "products": sorted(prod),
+                           "idx": idx if "idx" in keys else -1,
+                           "tmin": lo if "tmin" in keys else -1.0, "tmax": hi if "tmax" in keys else -1.0,
+                           "rate": f"{1 + n % 7}.5d-{10 + n % 5}"}
+                    out.append((fmt, line, exp))
+                    n += 1
+    return out
+
+
+def run_krome_formats(tier):
+    from ..harness.render import reset_globals, scratch, quiet
+
+    reset_globals()
+    from naunet.network import Network
+
+    cases = krome_format_cases(tier)
+    viols = []
+    tmp = Path(tempfile.mkdtemp(dir=scratch()))
+    nchecked = 0
+    try:
+        # (1) one file per directive; (2) one file in which the directive changes between blocks, in both orders
+        byfmt = {}
+        for c in cases:
+            byfmt.setdefault(c[0], []).append(c)
+        files = [[(f, byfmt[f])] for f in KROME_FORMATS]
+        files.append([(f, byfmt[f][:6]) for f in KROME_FORMATS])
+        files.append([(f, byfmt[f][:6]) for f in reversed(KROME_FORMATS)])
+        for blocks in files:
+            text = ""
+            chunk = []
+            for fmt, cs in blocks:
+                text += f"@format:{fmt}\n" + "\n".join(c[1] for c in cs) + "\n"
+                chunk += cs
+            f = tmp / "k.krome"
+            f.write_text(text)
+            label = "+".join(b[0] for b in blocks) if len(blocks) == 1 else f"{len(blocks)} directives in one file"
+            try:
+                with quiet():
+                    net = Network(filelist=str(f), fileformats="krome")
+            except Exception as e:
+                viols.append((f"C07:krome-format:raises:{type(e).__name__}:{blocks[0][0] if len(blocks) == 1 else 'switching'}", f"KROME file with @format:{label} raises {e!r}", {"fmt": "krome", "kromeformats": True}))
+                continue
+            rl = net.reaction_list
+            if len(rl) != len(chunk):
+                viols.append((f"C07:krome-format:count:{blocks[0][0] if len(blocks) == 1 else 'switching'}", f"KROME file with @format:{label}: {len(chunk)} data lines -> {len(rl)} reactions", {"fmt": "krome", "kromeformats": True}))
+                continue
+            for (fmt, line, exp), r in zip(chunk, rl):
+                got = observe(r)
+                got["rate"] = r.rate_string
+                nchecked += 1
+                bad = [k for k, v in exp.items() if got.get(k) != v]
+                if bad:
+                    where = "single" if len(blocks) == 1 else "switching"
+                    viols.append((f"C07:krome-format:field:{'+'.join(bad)}:{fmt}:{where}", f"@format:{fmt} line {line!r}: expected { {k: exp[k] for k in bad} } got { {k: got.get(k) for k in bad} }", {"fmt": "krome", "kromeformats": True, "line": line}))
+        return len(cases), nchecked, viols
+    finally:
+        shutil.rmtree(tmp, ignore_errors=True)
+
+
 
 def umist_multirange(ctx):
     """UMIST lines with NE = 2 carry two (alpha,beta,gamma,Tl,Tu) sets.  Kept separate from the
@@ -333,7 +423,11 @@ def run(ctx):
         nf += n
         ctx.absorb(viols)
     umist_multirange(ctx)
+    (nk, nkc, viols), = list(ctx.pmap(run_krome_formats, [ctx.tier]))
+    ctx.absorb(viols)
+    nc += nkc
     ctx.assumptions += [
+        "KROME @format directives: keys are case-insensitive (KROME's own reader lower-cases them); a directive governs the lines after it until the next directive; temperature limits may carry KROME's operator prefixes (>, <, .GE., .LT. ...) and Fortran d-exponents; a missing idx column leaves the index at -1, missing Tmin/Tmax columns leave the window open",
         "lines are produced by my own per-format encoders (mc/ref/formats.py) following the published column layouts; the expected values are the abstract reaction that was encoded (after the format's own printed rounding)",
         "type codes expected: own transcription of the KIDA / RATE12 / Walsh+2015 / UCLCHEM tables; Leeds types 15-19 define no type and are not judged on it",
         "KROME lines carry no type; their rate text is C12's subject",
@@ -341,10 +435,12 @@ def run(ctx):
     return {
         "evaluations": nc + nf,
         "distinct_nontrivial": nl,
-        "rule": "per format: every (reactant count, product count) layout x rotating name classes (1-char, charged, mid, column-filling, anion, surface, electron) x every type code; numbers^3 x index {1,99999} x windows on a base layout; files = every arrangement of <=4 items from {data1,data2,blank,spaces (+ KROME #,//,@format,@var,@common)} with and without trailing newline",
+        "rule": "per format: every (reactant count, product count) layout x rotating name classes (1-char, charged, mid, column-filling, anion, surface, electron) x every type code; numbers^3 x index {1,99999} x windows on a base layout; files = every arrangement of <=4 items from {data1,data2,blank,spaces (+ KROME #,//,@format,@var,@common)} with and without trailing newline; KROME: 8 @format directives (column orders, 1-3 R, 1-5 P, with/without idx and window columns, key case) x every (reactant count, product count) x limit spellings (NONE, N, plain, >, .GE., <, .LT., d- and e-exponents), one directive per file and all directives switching inside one file in both orders",
         "samples": [gen_cases(f, "quick")[3][2] for f in FORMATS],
         "lines_per_format": per,
         "lines_checked": nc,
+        "krome_format_directives": len(KROME_FORMATS),
+        "krome_format_lines": nk,
         "files_checked": nf,
         "exhaustive": True,
     }
@@ -354,6 +450,8 @@ def replay(ctx, case):
     fmt = case["fmt"]
     if case.get("multirange"):
         umist_multirange(ctx)
+    elif case.get("kromeformats"):
+        ctx.absorb(run_krome_formats("thorough")[2])
     elif "arrangement" in case:
         _, _, viols = run_files((fmt, "thorough"))
         ctx.absorb(viols)
